@@ -1,7 +1,19 @@
-(* EntryFront.v — entry points of this area; returns None for codes it does not own *)
-From RBQL Require Import Base Sx.
+(* EntryFront.v — entry points of the front-end / isolation area (codes 600-699) *)
+From RBQL Require Import Base Sx Sqlite.
+
+(* 600: sql_of_query  arg = L [input name; opt join name] -> L [statements] *)
+Definition ep_sql (x : sx) : sx :=
+  match x with
+  | L [i; j] =>
+      match str_of_sx i, option_of_sx str_of_sx j with
+      | Some input, Some join => sx_of_list sx_of_str (sql_of_query input join)
+      | _, _ => ERR
+      end
+  | _ => ERR
+  end.
 
 Definition dispatch_front (code : N) (x : sx) : option sx :=
   match code with
+  | 600%N => Some (ep_sql x)
   | _ => None
   end.
